@@ -371,6 +371,11 @@ func (fr *frame) visit(instr ssa.Instruction) cont {
 	case *ssa.DebugRef:
 
 	case *ssa.UnOp:
+		if m.trackGlobals && instr.Op == token.MUL {
+			if g, ok := instr.X.(*ssa.Global); ok && m.inRoot(g.Pkg) && !m.isHarnessFn(fr.fn) {
+				m.gLoads = appendUnique(m.gLoads, g.Name())
+			}
+		}
 		fr.set(instr, m.unop(instr, fr.get(instr.X)))
 
 	case *ssa.BinOp:
@@ -420,6 +425,9 @@ func (fr *frame) visit(instr ssa.Instruction) cont {
 		panic(targetPanic{fr.get(instr.X)})
 
 	case *ssa.Store:
+		if g, ok := instr.Addr.(*ssa.Global); ok && m.trackGlobals && m.inRoot(g.Pkg) && !m.isHarnessFn(fr.fn) {
+			m.gStores = append(m.gStores, g.Name())
+		}
 		p := fr.get(instr.Addr).(*Value)
 		if p == nil {
 			m.rtPanic("invalid memory address or nil pointer dereference")
@@ -692,4 +700,32 @@ func (m *Machine) interpretable(fn *ssa.Function) bool {
 		return true
 	}
 	return false
+}
+
+func appendUnique(xs []string, s string) []string {
+	for _, x := range xs {
+		if x == s {
+			return xs
+		}
+	}
+	return append(xs, s)
+}
+
+// isHarnessFn: the function comes from an injected zz_verif_* file.
+func (m *Machine) isHarnessFn(fn *ssa.Function) bool {
+	if v, ok := m.harnessFn[fn]; ok {
+		return v
+	}
+	f := fn
+	for f.Parent() != nil {
+		f = f.Parent()
+	}
+	v := false
+	if f.Synthetic == "package initializer" {
+		v = true
+	} else if f.Pos().IsValid() {
+		v = strings.Contains(m.P.Prog.Fset.Position(f.Pos()).Filename, "zz_verif_")
+	}
+	m.harnessFn[fn] = v
+	return v
 }
